@@ -1037,9 +1037,11 @@ class _Inliner:
             if not (len(x.targets) == 1 and isinstance(x.value, ast.Tuple)
                     and len(x.value.elts) == len(names)):
                 return None
+            changed = [n_ for n_, e in zip(names, x.value.elts)
+                       if not (isinstance(e, ast.Name) and e.id == n_)]
             for i, e in enumerate(x.value.elts):
-                if any(isinstance(y, ast.Name) and y.id in names[:i]
-                       for y in ast.walk(e)):
+                if any(isinstance(y, ast.Name) and y.id in names[:i] and
+                       y.id in changed for y in ast.walk(e)):
                     return None
 
         def rewrite(lst):
